@@ -177,7 +177,7 @@ def stage_sim(ctx, name, *, num, depth, bases=(0,), consts=None, invariants=None
         cached = True
     else:
         r = run_tlc_config(name, emit=False, workers=1, invariants=invariants, consts=consts, simulate=num,
-                           depth=depth, seed=sd)
+                           depth=depth, seed=sd, timeout=9000)
         if r.errors:
             raise MachineryFailure("simulate %s: %s" % (name, r.errors[0][:1500]))
         behs = list(behaviours(r, consts["EmitKeys"]))
